@@ -270,4 +270,14 @@ EXTRAS = {
         "level_note": "not a listed property; the format rules are transcribed from observed behaviour, the name tables from the classical lists",
         "technique": "trace validation against Names.tla",
     },
+    "X02": {
+        "title": "rest of the public API: back references, order of lunar hours, deprecated pillar getters, Jupiter directions, foetus-day constructors, chart day officer, second eight-character strategy, fortunes' lunar years, enumerations",
+        "mc": {},
+        "rule": "4,000 (quick) / 120,000 (thorough) seeded days, each with an instant, an ordered pair of lunar hours and (one in four) a child limit; the five enumerations completely",
+        "exhaustive": {"quick": False, "thorough": False},
+        "assumptions": ["Jupiter-direction tables are transcribed from the upstream tables; every other clause relates two routes through the API"],
+        "level_text": "trace validation against Extras.tla",
+        "level_note": "not a listed property",
+        "technique": "trace validation against Extras.tla",
+    },
 }
